@@ -35,9 +35,33 @@ static double c19_gaussian();
 #define CUSTOM_GAUSSIAN_RANDOM_FUNCTION c19_gaussian()
 #endif
 
-#include <tapkee/tapkee.hpp>
+// Only the three anchored methods are instantiated (tapkee.hpp instantiates all twenty and takes three
+// times as long to compile): embed_with<Impl>() does what tapkee::embed + DynamicImplementation::embedUsing
+// do for one method - check/merge the parameters, construct ImplementationBase (its target_dimension range
+// check included), then Impl::validate() and Impl::embed() of methods/<method>.hpp.
+#include <tapkee/defines.hpp>
+#include <tapkee/parameters/context.hpp>
+#include <tapkee/parameters/defaults.hpp>
+#include <tapkee/methods/base.hpp>
+#include <tapkee/utils/matrix.hpp>
+#include <tapkee/routines/pca.hpp>
+#include <tapkee/methods/random_projection.hpp>
+#include <tapkee/methods/stochastic_proximity_embedding.hpp>
+#include <tapkee/methods/factor_analysis.hpp>
 
 using namespace tapkee;
+
+template <template <class, class, class, class> class Impl, class It, class K, class Dc, class Fc>
+static TapkeeOutput embed_with(It b, It e, K k, Dc d, Fc f, stichwort::ParametersSet parameters)
+{
+    parameters.check();
+    parameters.merge(tapkee_internal::defaults);
+    tapkee_internal::Context context(nullptr, nullptr);
+    tapkee_internal::ImplementationBase<It, K, Dc, Fc> base(b, e, k, d, f, parameters, context);
+    Impl<It, K, Dc, Fc> implementation(base);
+    implementation.validate();
+    return implementation.embed();
+}
 
 // ------------------------------------------------------------------------------------------ log
 struct Iter
@@ -245,6 +269,9 @@ static void run_spe(std::istream& in, const std::string& id)
     }
 
     std::srand(srand_seed);
+    // the VP-tree draws its vantage points with tapkee::uniform_random(): restart the logged uniform stream
+    // so that the method's own neighbour search sees the answers the search above saw (same tree, same ties)
+    g_ugen.seed(useed);
     verif_shuffle().observer = shuffle_observer;
     verif_shuffle().user = nullptr;
     verif_shuffle_reseed(shseed);
@@ -253,8 +280,9 @@ static void run_spe(std::istream& in, const std::string& id)
     bool ok = false;
     try
     {
-        out = embed(data.begin(), data.end(), kcb, dcb, fcb,
-                    (method = StochasticProximityEmbedding, target_dimension = d, num_neighbors = k,
+        out = embed_with<tapkee_internal::StochasticProximityEmbeddingImplementation>(
+            data.begin(), data.end(), kcb, dcb, fcb,
+            (method = StochasticProximityEmbedding, target_dimension = d, num_neighbors = k,
                      spe_global_strategy = (global != 0), spe_num_updates = nupd, spe_tolerance = tol,
                      max_iteration = maxiter, neighbors_method = nb_method(nbm)));
         ok = true;
@@ -349,7 +377,8 @@ static void run_rp(std::istream& in, const std::string& id)
     g_logging = true;
     try
     {
-        TapkeeOutput out = embed(data.begin(), data.end(), kcb, dcb, fcb, (method = RandomProjection, target_dimension = d));
+        TapkeeOutput out = embed_with<tapkee_internal::RandomProjectionImplementation>(
+            data.begin(), data.end(), kcb, dcb, fcb, (method = RandomProjection, target_dimension = d));
         g_logging = false;
         std::printf("OK %d %d\n", (int)out.embedding.rows(), (int)out.embedding.cols());
         print_hex("G", g_gauss.data(), g_gauss.size());
@@ -403,7 +432,8 @@ static void run_fa(std::istream& in, const std::string& id)
     std::srand(srand_seed);
     try
     {
-        TapkeeOutput out = embed(data.begin(), data.end(), kcb, dcb, fcb,
+        TapkeeOutput out = embed_with<tapkee_internal::FactorAnalysisImplementation>(
+            data.begin(), data.end(), kcb, dcb, fcb,
                                  (method = FactorAnalysis, target_dimension = d, max_iteration = maxiter, fa_epsilon = eps));
         std::printf("OK %d %d\n", (int)out.embedding.rows(), (int)out.embedding.cols());
         print_rows("A0", A0);
